@@ -185,3 +185,21 @@ TECH_ADD.update({k_: (TECH_ADD.get(k_, "") + ("; " if TECH_ADD.get(k_) else "") 
     "C11": "flow-sensitive def/use/kill analysis of Result-holding locals",
     "C17": "evaluation of the reconstructed pad-length expression on a grid of (align, offset) pairs",
 }.items()})
+
+# Rounds 9 and 10
+for _pid, _txt in {
+    "C03": "Round 10: make_reader only constructs (plain decoder constructors, CRC wrapper): no adaptor changes where a decoder stops.",
+    "C04": "Round 9/10: no adapter field (counter, flag) is assigned before the wrapped read returned; make_reader constructs only; the raw accessor never decodes.",
+    "C05": "Round 9: the streaming reader hands on the method read from the metadata after the AE-x record was applied.",
+    "C06": "Round 9: the NUL test of enclosed_name is on the decoded name it validates.",
+    "C09": "Round 10: a buffering adapter hands its whole input on (a length query or a sub-slice is not consumption).",
+    "C10": "Round 9: decoder and crypto reader of a streamed entry are chosen by result.compression_method after the extra field.",
+    "C12": "Round 9/10: a call refused for its arguments (over-long name in start_entry, over-long comment in finalize) has touched nothing before the refusal -- found and led to the repair of F15.",
+    "C13": "Round 9/10: as C12 (refused calls leave the raw flag of re-read entries alone).",
+    "C14": "Round 9/10: as C12; the raw accessor never goes through the checksum / decoder.",
+    "C15": "Round 9: in make_crypto_reader only method, password, AES info, the data-descriptor flag and constructor / validator results decide.",
+    "C16": "Round 9/10: adapter state moves only after the wrapped read returned (an interrupted read cannot skip the MAC); the decoder behind the AES reader is the plain constructor.",
+    "C17": "Round 9: an implicit close runs end_extra_data whenever extra data is pending (local or central-only part).",
+    "C19": "Round 9/10: both decoders of a field read that field's own raw bytes; the decoded string is stored verbatim; bit 11 is decided by is_ascii of the written name.",
+}.items():
+    ADDENDA[_pid] = (ADDENDA.get(_pid, "") + " " + _txt).strip()
